@@ -298,5 +298,5 @@ def cases(draw):
 
 
 def subs(tier):
-    return [Sub("sum", cases(), run_sum, quick=3000, thorough=120000),
-            Sub("colsum", cases(), run_col, quick=2000, thorough=80000)]
+    return [Sub("sum", cases(), run_sum, quick=12000, thorough=120000),
+            Sub("colsum", cases(), run_col, quick=8000, thorough=80000)]
